@@ -2,12 +2,13 @@
 # usage: tools/seedtest.sh <patch.diff> <property> [more properties...]
 # Applies the patch in a scratch worktree of /repo (never /repo itself), runs the checks against it.
 set -u
+REV=""; if [ "$1" = "-R" ]; then REV="-R"; shift; fi
 PATCH=$1; shift
 WT=/tmp/wt/_test
 if [ ! -d $WT ]; then git -C /repo worktree add -q --detach $WT HEAD || exit 3; fi
 git -C $WT checkout -q --detach $(git -C /repo rev-parse HEAD) 2>/dev/null
 git -C $WT checkout -q -- . ; git -C $WT clean -qfd
-git -C $WT apply "$PATCH" || { echo "PATCH DOES NOT APPLY: $PATCH"; exit 3; }
+git -C $WT apply $REV "$PATCH" || { echo "PATCH DOES NOT APPLY: $PATCH"; exit 3; }
 rc=0
 for P in "$@"; do
   PYDLSA_REPO=$WT PYDLSA_EVIDENCE_DIR=/tmp/wt/_ev /verif/check --property $P | grep -v '^KNOWN' | cut -c1-260
